@@ -29,6 +29,8 @@ pub enum Op {
   Splice { pos: usize, del: usize, ins: String },
   /// `AstGrep::replace(pattern, fix)`
   Replace { pattern: String, fix: String },
+  /// `AstGrep::replace(KindMatcher(kind of the root node), fix)`: the whole tree is replaced
+  ReplaceRoot { fix: String },
   /// the next `Doc::parse` of the document under test returns `TreeUnavailable`
   ParseFault,
 }
@@ -138,6 +140,13 @@ impl Sut {
     match self {
       Sut::Plain(a) => a.replace(p, fix),
       Sut::Faulty(a, _, _) => a.replace(p, fix),
+    }
+  }
+  fn replace_kind(&mut self, kind: &str, lang: SupportLang, fix: &str) -> Result<bool, TSParseError> {
+    let m = ast_grep_core::matcher::KindMatcher::new(kind, lang);
+    match self {
+      Sut::Plain(a) => a.replace(m, fix),
+      Sut::Faulty(a, _, _) => a.replace(m, fix),
     }
   }
   fn find_ranges(&self, p: &Pattern<SupportLang>) -> Vec<(usize, usize)> {
@@ -387,8 +396,27 @@ pub fn execute(w: &mut World, mut gen: Option<(&mut Rng, usize)>) -> Exec {
         let ins = String::from_utf8(e.inserted_text.clone()).expect("utf8 replacement");
         (e.position, e.deleted_length, ins, "replace")
       }
+      Op::ReplaceRoot { fix } => {
+        if was_dirty {
+          ex.events.push("skip-replace-on-dirty".into());
+          continue;
+        }
+        // what a fresh parse of the model text says the replacement of its root node is (the
+        // root starts at the first token, not at byte 0)
+        let fresh = AstGrep::new(&model, lang);
+        let kind = fresh.root().kind().to_string();
+        let m = ast_grep_core::matcher::KindMatcher::new(&kind, lang);
+        let Some(e) = fresh.root().replace(m, fix.as_str()) else {
+          ex.events.push("replace-root-nomatch".into());
+          continue;
+        };
+        let ins = String::from_utf8(e.inserted_text.clone()).expect("utf8 replacement");
+        let r = e.position..e.position + e.deleted_length;
+        (r.start, r.end - r.start, ins, "replace-root")
+      }
     };
     let old_model = model.clone();
+    let old_model_for_kind = model.clone();
     let mut new_model = String::with_capacity(model.len() + ins.len());
     new_model.push_str(&model[..pos]);
     new_model.push_str(&ins);
@@ -400,6 +428,10 @@ pub fn execute(w: &mut World, mut gen: Option<(&mut Rng, usize)>) -> Exec {
       Op::Replace { pattern, fix } => {
         let p = Pattern::try_new(pattern, lang).unwrap();
         sut.replace(&p, fix)
+      }
+      Op::ReplaceRoot { fix } => {
+        let kind = AstGrep::new(&old_model_for_kind, lang).root().kind().to_string();
+        sut.replace_kind(&kind, lang, fix)
       }
       Op::ParseFault => unreachable!(),
     }));
@@ -639,8 +671,10 @@ pub fn gen_op(rng: &mut Rng, model: &str, c: &LangCorpus, faulting: bool) -> Op 
         ins: rng.pick(corpus::WORDS).to_string(),
       }
     }
+    // the whole tree replaced through AstGrep::replace with a kind matcher for the root
+    57..=59 => Op::ReplaceRoot { fix: rng.pick(c.snippets).to_string() },
     // a real match replaced through AstGrep::replace
-    57..=74 => {
+    60..=74 => {
       let (p, f) = *rng.pick(c.rewrites);
       Op::Replace {
         pattern: p.to_string(),
@@ -710,7 +744,11 @@ fn gen_world(seed: u64) -> (World, Rng, usize) {
   let c = &corpus::CORPORA[wr.below(corpus::CORPORA.len())];
   let n = wr.range(1, 14);
   let crlf = wr.chance(0.1);
-  let text = corpus::make_doc(&mut wr, c, n, crlf);
+  let mut text = corpus::make_doc(&mut wr, c, n, crlf);
+  if wr.chance(0.15) && !matches!(c.lang, "Python" | "Yaml" | "Haskell") {
+    // a document that does not start with a token
+    text = format!("{}{text}", wr.pick(&["\n", "\n\n", "  ", "\n  "]));
+  }
   let mut fr = Rng::stream(seed, "fault");
   let faulting = fr.chance(0.35);
   let nops = wr.range(1, 12);
